@@ -119,7 +119,7 @@ pub fn apply(arch: Arch, model: &mut Model, op: &Op, contents: &[Vec<u8>]) -> Re
         Op::AddEmpty(id) => {
             // whether this is refused is C19's subject; here only the state afterwards counts. A library that
             // accepts the empty add has left the domain of this model: the history is abandoned, not judged.
-            match arch.add(*id, Vec::new()) {
+            match arch.add_empty(*id, id.wrapping_mul(0x9E37_79B9) >> 7) {
                 Err(_) => Ok(arch),
                 Ok(()) => Err(String::from("ABANDON: empty add accepted")),
             }
@@ -138,13 +138,44 @@ pub fn apply(arch: Arch, model: &mut Model, op: &Op, contents: &[Vec<u8>]) -> Re
 }
 
 fn run_history(ctx: &mut Ctx, start_foreign: bool, ops: &[Op], contents: &[Vec<u8>], universe: &[u64], every: usize, trans: &mut BTreeMap<(u8, u8), u64>, states: &mut std::collections::HashSet<u64>) {
+    run_history_from(ctx, start_foreign, None, ops, contents, universe, every, trans, states);
+}
+
+/// `rich`: an archive from the independent writer (nested leaf directories, any layout) with its ground truth.
+#[allow(clippy::too_many_arguments)]
+fn run_history_from(
+    ctx: &mut Ctx,
+    start_foreign: bool,
+    rich: Option<&crate::gen::Foreign>,
+    ops: &[Op],
+    contents: &[Vec<u8>],
+    universe: &[u64],
+    every: usize,
+    trans: &mut BTreeMap<(u8, u8), u64>,
+    states: &mut std::collections::HashSet<u64>,
+) {
     let mat = |k: usize| -> Value {
-        json!({"start": if start_foreign {"opened foreign archive {5,6 -> c0 (one run)}"} else {"empty"},
+        json!({"start": if let Some(f) = rich { format!("opened foreign archive: {} ({} tiles)", f.layout, f.truth.len()) } else if start_foreign { String::from("opened foreign archive {5,6 -> c0 (one run)}") } else { String::from("empty") },
                "history": ops.iter().take(k + 1).map(show).collect::<Vec<_>>(),
                "contents": contents.iter().map(|c| (c.len(), c.first().copied())).collect::<Vec<_>>()})
     };
     let mut model = Model::default();
-    let mut arch = if start_foreign {
+    let mut arch = if let Some(f) = rich {
+        for (id, (off, len)) in &f.truth {
+            model.m.insert(*id, (f.bytes[*off as usize..*off as usize + *len as usize].to_vec(), false));
+        }
+        match guard(|| Arch::open_sync(f.bytes.clone())) {
+            Ok(Ok(a)) => a,
+            Ok(Err(e)) => {
+                ctx.violation("history/open", "op-failed", "opening a spec-valid start archive failed", &format!("{}: {e}", f.layout), mat(0));
+                return;
+            }
+            Err(p) => {
+                ctx.panic("history/open", &p, mat(0));
+                return;
+            }
+        }
+    } else if start_foreign {
         model.m.insert(5, (contents[0].clone(), false));
         model.m.insert(6, (contents[0].clone(), false));
         match Arch::open_sync(foreign_start(&contents[0])) {
@@ -388,7 +419,27 @@ pub fn run(ctx: &mut Ctx) {
             universe.sort_unstable();
             universe.dedup();
             let fp = hash_u64s(&ops.iter().map(|o| crate::rng::hash_bytes(show(o).as_bytes())).collect::<Vec<_>>());
-            run_history(ctx, i % 2 == 1, &ops, &pool, &universe, if huge { 50_000 } else { 25 }, &mut trans, &mut states);
+            if i % 6 == 3 {
+                // start from a spec-valid archive of the independent writer: nested leaf directories stored bottom-up, mixed
+                // directories, gaps, any section order
+                let mut o = crate::gen::gen_foreign_opts(&mut rng, R::CODECS[(i % 4) as usize], 400);
+                o.depth = 2 + (i / 6 % 2) as u32;
+                o.n_entries = o.n_entries.max(30);
+                o.small_metadata = true;
+                let f = crate::gen::gen_foreign(&mut rng, &o);
+                if R::validate(&f.bytes, &crate::checks::c03::foreign_opts()).is_ok() {
+                    let mut uni = universe.clone();
+                    uni.extend(f.truth.keys().step_by((f.truth.len() / 40).max(1)));
+                    uni.sort_unstable();
+                    uni.dedup();
+                    ctx.count("histories_starting_from_a_nested_foreign_archive");
+                    run_history_from(ctx, true, Some(&f), &ops, &pool, &uni, 25, &mut trans, &mut states);
+                } else {
+                    ctx.inconclusive("C04: foreign generator produced an invalid start archive");
+                }
+            } else {
+                run_history(ctx, i % 2 == 1, &ops, &pool, &universe, if huge { 50_000 } else { 25 }, &mut trans, &mut states);
+            }
             ctx.case(fp, true);
             ctx.max("random_history_length", nops as u64);
             if ctx.want_sample() {
